@@ -29,6 +29,7 @@ SRC = "async_upnp_client/aiohttp.py"
 EXC = "async_upnp_client/exceptions.py"
 
 # names the spec needs (the judge and the theorems refer to these classes)
+NAMED_EXTRA = {"cUnicodeDecode": "UnicodeDecodeError"}
 NAMED = {
     "cTimeout": "TimeoutError",
     "cClientConn": "ClientConnectionError",
@@ -207,6 +208,93 @@ def _inventory(mod: ast.Module, modelled: List[ast.Try]) -> None:
         _find_class(mod, cname)
 
 
+# ---- traffic-logging blocks ---------------------------------------------------------------------------
+
+def _is_name(e: ast.expr, *names: str) -> bool:
+    return isinstance(e, ast.Name) and (not names or e.id in names)
+
+
+def _log_arg_kind(e: ast.expr) -> str:
+    """'safe' for expressions that cannot raise on str/bytes/int operands; 'decodeStrictBody' for
+    `resp_body.decode()` / `.decode("utf-8")`; anything else that could raise is refused"""
+    if isinstance(e, (ast.Constant, ast.Name)):
+        return "safe"
+    if isinstance(e, ast.BoolOp) and all(isinstance(v, (ast.Constant, ast.Name, ast.Dict)) for v in e.values):
+        return "safe"                                                       # `body or ""`, `x or {}`
+    if (isinstance(e, ast.Call) and isinstance(e.func, ast.Attribute) and e.func.attr == "join"
+            and isinstance(e.func.value, ast.Constant) and len(e.args) == 1 and isinstance(e.args[0], ast.ListComp)):
+        lc = e.args[0]                                                      # "\n".join([key + ": " + value for key, value in X.items()])
+        ok_elt = (isinstance(lc.elt, ast.BinOp) and isinstance(lc.elt.op, ast.Add)
+                  and all(isinstance(n, (ast.BinOp, ast.Name, ast.Constant, ast.Add, ast.Load)) for n in ast.walk(lc.elt)))
+        gen = lc.generators[0] if len(lc.generators) == 1 else None
+        ok_iter = (gen is not None and not gen.ifs and isinstance(gen.iter, ast.Call) and isinstance(gen.iter.func, ast.Attribute)
+                   and gen.iter.func.attr == "items" and not gen.iter.args
+                   and (isinstance(gen.iter.func.value, ast.Name) or _log_arg_kind(gen.iter.func.value) == "safe"))
+        if ok_elt and ok_iter:
+            return "safe"
+    if (isinstance(e, ast.Call) and isinstance(e.func, ast.Attribute) and e.func.attr == "decode"
+            and _is_name(e.func.value, "resp_body") and not e.keywords
+            and (not e.args or (len(e.args) == 1 and isinstance(e.args[0], ast.Constant)
+                                and str(e.args[0].value).lower().replace("-", "") == "utf8"))):
+        return "decodeStrictBody"
+    raise Untranslatable(f"line {e.lineno}: logging argument `{ast.unparse(e)}` is of no recognised shape (may raise)")
+
+
+def _log_block(stmts: List[ast.stmt], where: str) -> List[str]:
+    kinds: List[str] = []
+    for st in stmts:
+        if not (isinstance(st, ast.Expr) and isinstance(st.value, ast.Call) and isinstance(st.value.func, ast.Attribute)
+                and _is_name(st.value.func.value, "_LOGGER_TRAFFIC_UPNP") and st.value.func.attr == "debug"
+                and not st.value.keywords and st.value.args and isinstance(st.value.args[0], ast.Constant)):
+            raise Untranslatable(f"line {st.lineno}: statement inside `if log_traffic:` is not `_LOGGER_TRAFFIC_UPNP.debug(fmt, …)`")
+        ks = [_log_arg_kind(a) for a in st.value.args[1:]]
+        risky = [k for k in ks if k != "safe"]
+        if risky and where == "pre":
+            raise Untranslatable(f"line {st.lineno}: raising logging statement outside the try")
+        kinds.append(risky[0] if risky else "safe")
+    return kinds
+
+
+def _is_log_if(st: ast.stmt) -> bool:
+    return isinstance(st, ast.If) and _is_name(st.test, "log_traffic") and not st.orelse
+
+
+def _logging(fn: ast.AsyncFunctionDef, t: ast.Try) -> Tuple[List[str], List[str]]:
+    """the `if log_traffic:` blocks of an inner request function: (before the try, inside it).  Every `if`
+    of the function must be one of those (or `if self._with_sleep:`); the statements of the exchange inside the
+    try are pinned to the shapes status/headers/read/log/text."""
+    pre: List[str] = []
+    post: List[str] = []
+    for st in fn.body[: fn.body.index(t)]:
+        if _is_log_if(st):
+            pre += _log_block(st.body, "pre")
+        elif isinstance(st, ast.If):
+            if ast.unparse(st.test) != "self._with_sleep":
+                raise Untranslatable(f"line {st.lineno}: unexpected `if {ast.unparse(st.test)}` before the try")
+        elif isinstance(st, ast.Assign) and _is_name(st.targets[0], "log_traffic"):
+            if ast.unparse(st.value) != "_LOGGER_TRAFFIC_UPNP.isEnabledFor(logging.DEBUG)":
+                raise Untranslatable(f"line {st.lineno}: log_traffic is not the traffic logger's DEBUG test")
+    # innermost `async with … as response:` body
+    body = t.body
+    while len(body) == 1 and isinstance(body[0], ast.AsyncWith):
+        body = body[0].body
+    for st in body:
+        if _is_log_if(st):
+            post += _log_block(st.body, "post")
+        elif isinstance(st, (ast.Assign, ast.AnnAssign)):
+            v = st.value
+            ok = (isinstance(v, ast.Attribute) and _is_name(v.value, "response")) \
+                or (isinstance(v, ast.BoolOp) and all(isinstance(x, (ast.Attribute, ast.Dict)) for x in v.values)) \
+                or (isinstance(v, ast.Await) and isinstance(v.value, ast.Call) and isinstance(v.value.func, ast.Attribute)
+                    and _is_name(v.value.func.value, "response") and v.value.func.attr in ("read", "text")
+                    and not v.value.args and not v.value.keywords)
+            if not ok:
+                raise Untranslatable(f"line {st.lineno}: unexpected statement `{ast.unparse(st)[:60]}` inside the exchange")
+        else:
+            raise Untranslatable(f"line {st.lineno}: unexpected statement `{ast.unparse(st)[:60]}` inside the exchange")
+    return pre, post
+
+
 def _load_exceptions(repo: Path):
     spec = importlib.util.spec_from_file_location("_c17_exceptions_probe", repo / EXC)
     mod = importlib.util.module_from_spec(spec)
@@ -244,6 +332,10 @@ def gen(repo: Path) -> str:
     inner_t = _single_try(_find_method(sess, "_async_http_request"))
     _covers_exchange(plain_t, "session")
     _covers_exchange(inner_t, "self._session")
+    plain_fn = _find_method(_find_class(mod, "AiohttpRequester"), "async_http_request")
+    inner_fn = _find_method(sess, "_async_http_request")
+    log_plain = _logging(plain_fn, plain_t)
+    log_inner = _logging(inner_fn, inner_t)
     plain = _ladder(plain_t, False)
     inner = _ladder(inner_t, False)
     outer = _find_method(sess, "async_http_request")
@@ -277,7 +369,7 @@ def gen(repo: Path) -> str:
         return out
 
     lp, li, lr, lf = conv(plain), conv(inner), conv(retry), conv(final)
-    for v in NAMED.values():
+    for v in list(NAMED.values()) + list(NAMED_EXTRA.values()):
         if v not in classes:
             add(_resolve(v, excmod))
     names = sorted(classes)
@@ -307,9 +399,19 @@ def gen(repo: Path) -> str:
     out += f"def sessionRetries : Nat := {retries}\n\n"
     out += "/-- classes a session can raise: asyncio.TimeoutError, UnicodeDecodeError, aiohttp.client_exceptions.__all__ -/\n"
     out += f"def transport : List Nat := {lean_list(str(idx[n]) for n in transport)}\n\n"
+    def lean_block(b) -> str:
+        f = lambda ks: lean_list("." + k for k in ks)
+        return f"{{ pre := {f(b[0])}, post := {f(b[1])} }}"
+
+    out += "/-- the `if log_traffic:` blocks (statement kinds) of the plain / session requester -/\n"
+    out += f"def logPlain : LogBlock := {lean_block(log_plain)}\n"
+    out += f"def logInner : LogBlock := {lean_block(log_inner)}\n\n"
     out += "def tables : Tables where\n"
     out += "  supers := supers\n  plain := ladderPlain\n  inner := ladderInner\n  retry := ladderRetry\n  final := ladderFinal\n"
     out += "  retries := sessionRetries\n  transport := transport\n"
+    out += "  logPlain := logPlain\n  logInner := logInner\n"
+    for field, nm in NAMED_EXTRA.items():
+        out += f"  {field} := {idx[nm]}  -- {nm}\n"
     for field, nm in NAMED.items():
         out += f"  {field} := {idx[nm]}  -- {nm}\n"
     out += "\nend Upnp.Gen.C17\n"
